@@ -201,6 +201,16 @@ func payload(g Gen) (b []byte, kind string) {
 		}
 		return b, "mixed"
 	default:
+		if g.Intn(3) == 0 {
+			// a very long run of one byte: deflate's best case (beyond 1000:1), where guards
+			// against decompression bombs and length arithmetic on ratios get exercised
+			b = make([]byte, g.Range(700000, 2200000))
+			c := byte(g.Intn(256))
+			for i := range b {
+				b[i] = c
+			}
+			return b, "huge-run"
+		}
 		n := g.Range(65537, 90000)
 		b = make([]byte, n)
 		p := newPrng(g)
